@@ -271,7 +271,7 @@ func WorkerMain(t *testing.T) {
 		dir := filepath.Join(scratch, fmt.Sprintf("run-%d", run))
 		os.RemoveAll(dir)
 		os.MkdirAll(dir, 0755)
-		meta := &ViolationRecord{Property: prop, Flavour: flavourName, Seed: seed, Run: run, Tier: tier}
+		meta := &ViolationRecord{Property: prop, Flavour: effectiveFlavour(), Seed: seed, Run: run, Tier: tier}
 		curMeta.Store(meta)
 		States = map[string]bool{}
 		var m *Sim
@@ -380,4 +380,13 @@ func WorkerMain(t *testing.T) {
 			f.Close()
 		}
 	}
+}
+
+// effectiveFlavour is the build flavour, or "S" when the worker runs under
+// strace (system-call-boundary mode of C05).
+func effectiveFlavour() string {
+	if os.Getenv("VERIF_STRACE_FILE") != "" {
+		return "S"
+	}
+	return flavourName
 }
